@@ -172,11 +172,32 @@ def check_case(res: Res, g: G, yg, x, y, doms, models_star, case, total_only=Fal
         want = identifiable_tp(g, x, y)
         if (est is not None) != want:
             res.violation("k0_matches_id", case, f"no source domains: returned {est}, ID-identifiable = {want}")
+    # the two mappings are equal as dicts whatever the order their keys were written in: with two domains the call is
+    # repeated with surrogate_interventions written in the opposite key order (argument presentation, after seeded C05-h)
+    alt = None
+    if len(doms) >= 2:
+        si_rev = {p: si[p] for p in reversed(list(si))}
+        try:
+            alt = identify_target_outcomes(
+                yg, target_outcomes=ys, target_interventions=xs, surrogate_outcomes=so, surrogate_interventions=si_rev
+            )
+        except Exception as e:  # noqa
+            res.outcomes[f"exception:{type(e).__name__}"] += 1
+            res.violation("total", dict(case, si_reversed=True), f"identify_target_outcomes raised {type(e).__name__}: {e} (surrogate_interventions in reversed key order)")
+            alt = None
+        if alt is not None and not isinstance(alt, Expression):
+            res.violation("total", dict(case, si_reversed=True), f"returned a {type(alt).__name__}")
+            alt = None
+        if alt is not None and str(alt) == str(est):
+            alt = None  # same estimand: judged below
+        res.transitions += 1
     if est is None:
         res.outcomes["none"] += 1
-        return
-    res.outcomes["estimand"] += 1
-    if total_only:
+    else:
+        res.outcomes["estimand"] += 1
+    if alt is not None:
+        res.outcomes["estimand_differs_with_reversed_key_order"] += 1
+    if total_only or (est is None and alt is None):
         return
     # transport marks from y0's own diagrams, united with the published construction
     tq = surrogate_to_transport(
@@ -193,7 +214,8 @@ def check_case(res: Res, g: G, yg, x, y, doms, models_star, case, total_only=Fal
         if not ref <= own:
             res.extra["y0_marks_fewer_transport_nodes_than_reference"] += 1
         marks[p.name] = own | ref
-    for label, mstar in models_star:
+    cands = ([(case, est)] if est is not None else []) + ([(dict(case, si_reversed=True), alt)] if alt is not None else [])
+    for (case, est), (label, mstar) in itt.product(cands, models_star):
         models = {"pi*": mstar}
         for pname, mk in marks.items():
             models[pname] = SCM(g, card=mstar.card, salt=mstar.salt, node_salt={v: f"{mstar.salt}/{pname}" for v in mk})
@@ -221,8 +243,6 @@ def check_case(res: Res, g: G, yg, x, y, doms, models_star, case, total_only=Fal
                 res.outcomes["wrong_value"] += 1
                 return
     res.outcomes["estimand_correct"] += 1
-    if any(isinstance(n, type(est)) for n in ()):  # pragma: no cover
-        pass
     if "π" in str(est):
         res.outcomes["estimand_uses_source_domain"] += 1
 
